@@ -325,7 +325,8 @@ pub fn c19(ctx: &Ctx) -> PropResult {
     if let Err(e) = build_binary() {
         panic!("cannot build the aplang binary: {e}");
     }
-    let paths = ["f1", "f2", "d", "d/f", "d/e", "d/e/g", "", ".", "d/", "./f1", "nope/x", "f1/x"];
+    // `..` is resolved as the kernel does (through existing directories only); no path climbs above the work directory
+    let paths = ["f1", "f2", "d", "d/f", "d/e", "d/e/g", "", ".", "d/", "./f1", "nope/x", "f1/x", "d/..", "d/../f1", "d/e/..", "d/e/../f", "nope/../f1", "f1/../f2", "d/../d/e", "d/e/../../f2", "./d/../f1"];
     let contents = ["\"text\"", "\"héllo\\n\"", "12.5", "TRUE", "NULL", "[1, \"a\"]", "\"\""];
     let ops = ["PATH_EXISTS", "PATH_IS_FILE", "PATH_IS_DIRECTORY", "FILE_REMOVE", "FILE_CREATE", "FILE_READ", "FILE_APPEND", "FILE_OVERWRITE", "DIRECTORY_READ", "DIRECTORY_CREATE", "DIRECTORY_CREATE_ALL", "DIRECTORY_REMOVE", "DIRECTORY_REMOVE_ALL"];
     let stmt = |op: &str, p: &str, c: &str| -> String {
@@ -340,7 +341,7 @@ pub fn c19(ctx: &Ctx) -> PropResult {
     let mut rng = mk_rng(ctx.seed, 19);
     let pre = "IMPORT MOD \"FS\"\nIMPORT MOD \"STRING\"\n";
     // exhaustive: all histories of length 2 over 6 paths (quick: sampled), after a fixed creation prefix or not
-    let core_paths = ["f1", "d", "d/f", "d/e", "", "f1/x"];
+    let core_paths = ["f1", "d", "d/f", "d/e", "", "f1/x", "d/../f1", "d/e/..", "nope/../f1"];
     let mut all2 = vec![];
     for o1 in ops {
         for p1 in core_paths {
@@ -696,10 +697,7 @@ pub fn c13(ctx: &Ctx) -> PropResult {
             case.files = files.iter().map(|(p, c)| (root.join(p).to_string_lossy().to_string(), Some(c.to_string()))).collect();
             let impl_rec = format!("exit={:?} stdout={}", abs.code, hex(&abs.stdout));
             let mut failure = None;
-            // `..` in paths is outside the file-system model (Model/Fs.lean): those layouts are decided by the
-            // invocation-independence oracle alone
-            let modelled = !files.iter().any(|(_, c)| c.contains(".."));
-            if let Some((m, _)) = imp::parse_model_run(&reply).filter(|_| modelled) {
+            if let Some((m, _)) = imp::parse_model_run(&reply) {
                 let ok_model = matches!(m.end, End::Ok);
                 if String::from_utf8_lossy(&abs.stdout) != m.output || (abs.code == Some(0)) != ok_model {
                     failure = fail("model-disagreement", case.clone(), impl_rec.clone(), reply.clone(), "the tool started with an absolute path disagrees with the model".into());
@@ -1129,6 +1127,6 @@ pub fn c18(ctx: &Ctx) -> PropResult {
         stats: st,
         rule: "every library procedure of the live registry (SLEEP excepted; FS inside a scratch working directory, INPUT with an empty standard input) called once with plausible arguments between two DISPLAY probes, every statement form, the three IMPORT forms, lexical / syntax / runtime errors, random programs; run in-process with the output channel captured by the hook sink while the process's file descriptors 1 and 2 are redirected to files: the sink must hold exactly the model's displayed output and the descriptors must stay empty (lexing and parsing alone included); static part: the census of output sites regenerated into Gen/Sites.lean and closed by `decide` (see theorems)".into(),
         exhaustive: false,
-        notes: vec![format!("{} output sites in /repo/src", output_sites().len()), "the wasm configuration is type-checked (cargo check --features wasm) in the thorough tier, not executed".into()],
+        notes: vec![format!("{} output sites in /repo/src", output_sites().len()), "the library in its wasm configuration is type-checked by ./check on every run (cargo check --lib --no-default-features --features wasm), not executed".into()],
     }
 }
